@@ -574,35 +574,40 @@ func (e *Ex) originConn(c net.Conn, isTLS bool) {
 		var body []byte
 		var earlyErr error
 		earlyClose, early := false, false
+		// what the origin received is recorded BEFORE the last byte of its answer goes out: the client may
+		// finish the case the moment it has the complete response
+		record := func(body []byte, earlyErr error) {
+			w.mu.Lock()
+			defer w.mu.Unlock()
+			it := w.items[id]
+			r := w.rec(id)
+			r.upCount++
+			r.upSeq = w.next()
+			r.upTLS = isTLS
+			r.upMethod = req.Method
+			r.upURI = req.URL.RequestURI()
+			r.upBody = sum(body)
+			r.upWarn = len(req.Header["Warning"])
+			if it != nil {
+				r.upWarn = carrying(req.Header["Warning"], modErr(it.s("ek", "plain"), reqErrMark))
+				r.upHdrOK, r.upHdrDetail = headersIncluded(reqHeaders(it), req.Header)
+			}
+			if earlyErr != nil {
+				r.earlyErr = earlyErr.Error()
+			}
+		}
 		unread := eit != nil && eit.s("ur", "0") == "1" && eit.s("o", "ok") == "ok"
 		if unread {
 			early = true // recorded first, answered below without reading the upload (unread.go)
+			record(nil, nil)
 		} else if eit != nil {
-			body, earlyErr, earlyClose, early = e.originEarly(c, req, id, eit)
+			earlyErr, earlyClose, early = e.originEarly(c, req, id, eit, record)
 		}
 		if !early {
 			body, _ = io.ReadAll(req.Body)
+			record(body, nil)
 		}
-		w.mu.Lock()
-		it := w.items[id]
-		r := w.rec(id)
-		r.upCount++
-		r.upSeq = w.next()
-		r.upTLS = isTLS
-		r.upMethod = req.Method
-		r.upURI = req.URL.RequestURI()
-		r.upBody = sum(body)
-		r.upWarn = len(req.Header["Warning"])
-		if it != nil {
-			r.upWarn = carrying(req.Header["Warning"], modErr(it.s("ek", "plain"), reqErrMark))
-		}
-		if it != nil {
-			r.upHdrOK, r.upHdrDetail = headersIncluded(reqHeaders(it), req.Header)
-		}
-		if earlyErr != nil {
-			r.earlyErr = earlyErr.Error()
-		}
-		w.mu.Unlock()
+		it := eit
 		if unread {
 			e.originUnread(c, req, id, eit)
 			return
